@@ -74,7 +74,18 @@ func buildImage(layers []layerSpec, withHistory bool) (v1.Image, error) {
 		}
 		adds = append(adds, a)
 	}
-	return mutate.Append(img, adds...)
+	out, err := mutate.Append(img, adds...)
+	if err != nil || withHistory {
+		return out, err
+	}
+	// no history at all: mutate.Append records a (zero) history entry per layer, drop them
+	cf, err := out.ConfigFile()
+	if err != nil {
+		return nil, err
+	}
+	cf = cf.DeepCopy()
+	cf.History = nil
+	return mutate.ConfigFile(out, cf)
 }
 
 // spell renders an absolute abstract path ("/a/b") in one of the tar name spellings.
